@@ -43,6 +43,7 @@ pub fn run(a: &Args) -> i32 {
     surrealkv::verif::set_manual_background(true);
     let mut run = Run::new("C11", a.tier, a.seed, "exploration");
     crate::scenarios::run_for(&mut run, "C11");
+    crate::matrix::run_for(&mut run, "C11");
     let c = campaign(a);
     let out = campaign::run_campaign(&c, a.seed, "c11");
     campaign::report_failures(&mut run, &out, &c.exec);
